@@ -533,6 +533,7 @@ async def proxy_sample(loop, ctx):
     cases = []
     try:
         s = rig.session("P")
+        await s.cmd("NOOP")  # (so that nothing below is the first message of its connection: there "POP3" is the front end's marker)
         # lines that mean something to the transport between the two processes when they come first on a connection
         # (the POP3 marker) or during IDLE (DONE): in the middle of an IMAP session they are just bad commands
         transport_words = ["POP3", "DONE", "POP3", "pop3", "POP3 x", "DONE DONE", "{4}", "+"]
@@ -560,6 +561,7 @@ async def proxy_sample(loop, ctx):
                 cases.append(Case.make(f"p{ctx['script']}.{i}", VIOLATED, spec=ctx["spec"], nontrivial=True, key=common.h(text),
                                        witness={"kind": "rejected-command-not-answered-bad-or-session-lost", "detail": f"{text[:80]!r}: replies {new[:3]}, NOOP -> {r.status}, closed={s.writer.closed}", "input": text[:300]}))
                 s = rig.session("P")
+                await s.cmd("NOOP")
     finally:
         await rig.stop()
     if not cases:
